@@ -410,7 +410,7 @@ def to_text(d):
 
 def cases(seed, tier):
     rng = random.Random('c14-%s' % seed)
-    n = 4480 if tier == 'quick' else 120000
+    n = 4480 if tier == 'quick' else 60000
     per = 140 if tier == 'quick' else 900
     return [{'mseed': rng.getrandbits(48), 'n': per, 'tier': tier}
             for _ in range(0, n, per)]
